@@ -80,7 +80,7 @@ func runC15(res *lp.Result) {
 	res.Rule = "lib-lib: versions {2,3,4,5,DSE1,DSE2} x {none, LZ4, Snappy where allowed} x auth on/off, generated request and response frames of " +
 		"every applicable kind, compared structurally at the receiving side; raw-client / raw-server (v5, none and LZ4, auth on/off): an " +
 		"independent raw TCP peer with its own segment framing: unframed handshake, 1..k envelopes per self-contained segment, envelopes of " +
-		"up to ~400 KiB split over segments at several split points (segment-size boundaries, just after the envelope header, random), " +
+		"up to ~300 KiB (quick) / ~1 MB (thorough) split over segments at several split points (segment-size boundaries, just after the envelope header, random), " +
 		"wire format of what the library sends checked against the reference layout. Non-trivial = every scenario (each exchanges frames)."
 	scns := c15Scenarios()
 	runScenarios(res, "C15CONN", len(scns), func(i int) string { return scns[i].String() })
@@ -172,6 +172,13 @@ func c15LibLib(res *lp.Result, s c15Scn) {
 		g := &gen.G{R: rng, V: s.version, Big: rng.Intn(10) == 0}
 		sid := int16(1 + i%100) // (protocol v2 has one-byte stream ids; every request is answered before the next one is sent)
 		req := genFrame(g, c15RequestKinds, sid)
+		// the first exchanges of a connection with the v5 framing carry envelopes of exactly the largest payload a segment holds
+		// (131071 bytes), one byte less, and half of it
+		exact := 0
+		if s.version.SupportsModernFramingLayout() && i < 3 {
+			exact = []int{131071, 131070, 65536}[i]
+			req = sizedEnvelope(exact, func(n int) *frame.Frame { return bigQuery(s.version, sid, n, rng) })
+		}
 		if s.comp != primitive.CompressionNone && rng.Bool() {
 			req.SetCompress(true)
 		}
@@ -195,6 +202,12 @@ func c15LibLib(res *lp.Result, s c15Scn) {
 			viol("request received by the server differs from what the client sent", t, want)
 		}
 		resp := genFrame(g, c15ResponseKinds, sid)
+		if exact > 0 {
+			resp = sizedEnvelope(exact, func(n int) *frame.Frame {
+				return frame.NewFrame(s.version, sid, &message.RowsResult{Metadata: &message.RowsMetadata{ColumnCount: 1}, Data: message.RowSet{message.Row{rng.Bytes(n)}}})
+			})
+			res.Count(fmt.Sprintf("envelope-size/%d", exact))
+		}
 		for s.version.SupportsModernFramingLayout() && len(encodeEnvelope(resp)) > 131071 {
 			res.Count("skipped/envelope-larger-than-a-segment")
 			resp = genFrame(&gen.G{R: rng, V: s.version}, c15ResponseKinds, sid)
@@ -366,6 +379,12 @@ func bigQuery(v primitive.ProtocolVersion, streamId int16, size int, rng *lp.Rng
 	return frame.NewFrame(v, streamId, &message.Query{Query: string(q)})
 }
 
+// sizedEnvelope: a frame whose envelope (header + uncompressed body) is exactly target bytes long
+func sizedEnvelope(target int, mk func(n int) *frame.Frame) *frame.Frame {
+	l := len(encodeEnvelope(mk(1000)))
+	return mk(1000 + target - l)
+}
+
 func bigRows(v primitive.ProtocolVersion, streamId int16, size int, rng *lp.Rng) *frame.Frame {
 	row := [][]byte{rng.Bytes(size / 4), bytes.Repeat([]byte("xy"), size/8), rng.Bytes(size / 2)}
 	m := &message.RowsResult{Metadata: &message.RowsMetadata{ColumnCount: 3}, Data: message.RowSet{row}}
@@ -509,7 +528,7 @@ func c15RawClient(res *lp.Result, s c15Scn) {
 		}
 	}
 	// (2) a large envelope over several segments, several split points
-	size := 140000 + s.variant*37000
+	size := 140000 + s.variant*80000 // 140000, 220000, 300000 at the quick tier; up to ~1 MB
 	for si := 0; si < 5; si++ {
 		// a different envelope size for every split, so that nothing left over from the previous reassembly can fit
 		f := bigQuery(s.version, 300, size+si*1237, rng)
